@@ -1,6 +1,7 @@
 package worlds
 
 import (
+	"math"
 	"bytes"
 	"database/sql"
 	"fmt"
@@ -83,6 +84,9 @@ func runC19(r *simkit.Run) {
 	n := c.Range(2, 3, "n")
 	t := c.Range(1, n, "t")
 	w := newWorldC(r, n, t, simnet.Config{MinDelay: time.Millisecond, MaxDelay: 30 * time.Millisecond})
+	// the configured maximum pointer age: small values and the largest admissible one (an unknown
+	// age is outdated whatever the limit)
+	w.maxTxPointerAge = simkit.Pick(c, []uint64{2, 2, 1, 3, math.MaxInt64}, "max-tx-pointer-age")
 	defer w.close()
 	w.fl = flGnosis
 	const genesisTs = 1665410700
